@@ -77,6 +77,9 @@ void _ZN7QStringD2Ev(char *self) { }
 void _ZN7QStringD1Ev(char *self) { }
 void _ZN10QByteArrayD2Ev(char *self) { }
 void _ZN10QByteArrayD1Ev(char *self) { }
+/* text == base64(raw) in terms of the abstract base64 tagging of qt_core.c (tag = the raw block); raw has <= 4 bytes */
+uint8_t vp_c19_text_is_b64_of(char *text, char *raw) { QAD *d = *(QAD**)text; QAD *r = C19_QBD(raw); if (r->f1 == 0) return d->f1 == 0; QAD *tag = QTAG16(d); if (!tag) return 0; if (tag == r) return 1;
+  if (tag->f1 != r->f1) return 0; for (uint32_t i = 0; i < 4; i++) { if (i >= r->f1) break; if (qb_bytes(tag)[i] != qb_bytes(r)[i]) return 0; } return 1; }
 uint32_t vp_c19_dom_nchildren(char *el) { struct dnode *n = DN(el); return n ? n->nch : 0; }
 void vp_c19_dom_child(char *out, char *el, uint32_t i) { struct dnode *n = DN(el); DN(out) = (n && i < n->nch && i < DOM_MAXCH) ? n->ch[i] : 0; }
 #endif
